@@ -313,4 +313,5 @@ func c10(p *model.Prog, r *report.Result) {
 	c10r6(p, r)
 	c10r7(p, r)
 	c10r8(p, r)
+	c10r910(p, r)
 }
